@@ -58,7 +58,12 @@ impl<F> Stream<F> {
 
     fn flush_changes(&mut self) -> io::Result<()> {
         if let Some(flusher) = self.flusher.take() {
-            flusher.flush_changes(self)?;
+            if let Err(err) = flusher.flush_changes(self) {
+                // Keep the stream marked as modified, so that a later flush
+                // tries to write the buffered data again.
+                self.flusher = Some(flusher);
+                return Err(err);
+            }
         }
         Ok(())
     }
